@@ -144,3 +144,34 @@ def run_parser_fn(fn, ctx, extra_args=()):
         return pr.invoke(fn, None, args)
     finally:
         pr.mhooks = old
+
+
+class SymCtx(Ctx):
+    """Every character run matched an unknown text (three unknown characters, one for a single-character parser), every
+    literal itself; alternations take the branch given in `pick` (default: the first); the alternations met are recorded so
+    that the caller can enumerate the branches.  `origin` maps each unknown to the set node it stands for."""
+
+    def __init__(self, facts, builder, module=(), pick=None):
+        Ctx.__init__(self, facts, builder, module)
+        self.pick = dict(pick or {})
+        self.alts = []
+        self.origin = {}
+
+    def leaf(self, node):
+        if node["t"] == "lit":
+            return node["s"]
+        if node["t"] == "set":
+            one = node.get("max") == 1
+            xs = [P.Opq("char%d" % i) for i in range(1 if one else 3)]
+            for x in xs:
+                self.origin[id(x)] = node
+            return xs[0] if one else xs
+        raise P.NoEval("no text for %s" % node["t"])
+
+    def choice(self, node):
+        if not any(n is node for n in self.alts):
+            self.alts.append(node)
+        return self.pick.get(id(node), 0)
+
+    def ref(self, node):
+        raise P.NoEval("value of %s" % node.get("fn"))
